@@ -121,28 +121,29 @@ def codec(ctx):
                 bd, sd = mt._decode_cell_data(mt._encode_cell_data())
                 ok &= np.asarray(sd["s"]).tolist() == list(sub)
         ctx.fact("codec/subdomains/%s" % name, fe, ok, "a cell subset does not survive the indicator/nonzero round trip", backend="exhaustive-execution")
-        # dict / npz
+        # dict / npz: tag names are arbitrary strings -- plain ones and names that contain the formats' own key prefixes (b_, s_, o_) at the start, inside, at the end
         if name != "MeshWedge1":
             import io as _io
-            tag = OrientedBoundary(np.array(sorted(interior)), np.ones(len(interior), dtype=int)) if interior else np.array([0])
-            mt = m.with_boundaries({"i": tag, "b": m.boundary_facets()}).with_subdomains({"s": np.array([0])})
-            d = mt.to_dict()
             import json
-            m2 = type(m).from_dict(json.loads(json.dumps(d)))
-            okd = (np.array_equal(m2.p, mt.p) and np.array_equal(m2.t, mt.t) and sorted(m2.boundaries) == ["b", "i"]
-                   and np.array_equal(np.asarray(m2.boundaries["i"]), np.asarray(tag)) and getattr(m2.boundaries["i"], "ori", np.zeros(1)).tolist() == getattr(tag, "ori", np.zeros(1)).tolist()
-                   and np.array_equal(m2.subdomains["s"], [0]))
-            ctx.fact("dict/%s" % name, ctx.function(M.Mesh.to_dict), bool(okd), "to_dict -> json -> from_dict changes the mesh or its tags (orientation flags incl.)",
-                     backend="path-execution", replay=dict(kind="io_codec"))
-            buf = _io.BytesIO()
-            mt.save_npz(buf)
-            buf.seek(0)
-            m3 = type(m).load_npz(buf)
-            okn = (np.array_equal(m3.p, mt.p) and np.array_equal(m3.t, mt.t) and sorted(m3.boundaries) == ["b", "i"]
-                   and np.array_equal(np.asarray(m3.boundaries["i"]), np.asarray(tag)) and getattr(m3.boundaries["i"], "ori", np.zeros(1)).tolist() == getattr(tag, "ori", np.zeros(1)).tolist()
-                   and np.array_equal(m3.subdomains["s"], [0]))
-            ctx.fact("npz/%s" % name, ctx.function(M.Mesh.save_npz), bool(okn), "save_npz -> load_npz changes the mesh or its tags (orientation flags incl.)",
-                     backend="path-execution", replay=dict(kind="io_codec"))
+            tag = OrientedBoundary(np.array(sorted(interior)), np.ones(len(interior), dtype=int)) if interior else np.array([0])
+            for ni, (nb_i, nb_b, ns_s) in enumerate((("i", "b", "s"), ("no_slip", "sub_inlet", "glass_pane"), ("o_b_s_", "b_b_", "s_s_o_"), ("wall_o_", "tab_", "gas_"))):
+                mt = m.with_boundaries({nb_i: tag, nb_b: m.boundary_facets()}).with_subdomains({ns_s: np.array([0])})
+                d = mt.to_dict()
+                m2 = type(m).from_dict(json.loads(json.dumps(d)))
+                buf = _io.BytesIO()
+                mt.save_npz(buf)
+                buf.seek(0)
+                m3 = type(m).load_npz(buf)
+                for how, mm, f_ in (("dict", m2, M.Mesh.to_dict), ("npz", m3, M.Mesh.save_npz)):
+                    ok_ = (np.array_equal(mm.p, mt.p) and np.array_equal(mm.t, mt.t) and sorted(mm.boundaries) == sorted([nb_b, nb_i]) and sorted(mm.subdomains) == [ns_s]
+                           and np.array_equal(np.asarray(mm.boundaries[nb_i]), np.asarray(tag))
+                           and getattr(mm.boundaries[nb_i], "ori", np.zeros(1)).tolist() == getattr(tag, "ori", np.zeros(1)).tolist()
+                           and np.array_equal(np.asarray(mm.boundaries[nb_b]), np.asarray(m.boundary_facets())) and np.array_equal(mm.subdomains[ns_s], [0]))
+                    ctx.fact("%s/%s%s" % (how, name, "" if ni == 0 else "/names%d" % ni), ctx.function(f_), bool(ok_),
+                             "%s round trip changes the mesh or its tags (names %r, %r, %r; orientation flags incl.): got boundaries %s subdomains %s"
+                             % (how, nb_i, nb_b, ns_s, sorted(mm.boundaries or {}), sorted(mm.subdomains or {})),
+                             clause="round trip keeps p, t, every tag NAME (also names containing the key prefixes b_, s_, o_), tagged sets and orientation flags",
+                             backend="path-execution", replay=dict(kind="io_codec"))
     del fe
 
 
